@@ -19,6 +19,7 @@ import (
 	"github.com/evolbioinfo/goalign/align"
 	"github.com/evolbioinfo/goalign/distance/dna"
 
+	"verif/lib/conc"
 	"verif/lib/gen"
 	"verif/lib/h"
 	"verif/lib/mon"
@@ -833,10 +834,12 @@ func main() {
 	mon.Floor("large-fault:kind:0", 10)
 	mon.Floor("large-fault:kind:1", 10)
 	mon.Floor("large-fault:cpus:1", 5)
+	mon.Floor("concurrent:calls", 500)
 	mon.Main("C08", []mon.Sub{
 		{Name: "meta", Quick: 60000, Thorough: 2000000, Run: runMeta},
 		{Name: "schedules", Quick: 320, Thorough: 12000, Race: true, Run: runSchedules},
 		{Name: "faults", Quick: 16, Thorough: 128, Race: true, Run: runFaults},
 		{Name: "faults-large", Quick: 96, Thorough: 1920, Race: true, Run: runFaultsLarge},
+		{Name: "concurrent", Quick: 64, Thorough: 1200, Race: true, Run: func(c *mon.Case) { conc.Run(c, "ntdist") }},
 	})
 }
